@@ -108,6 +108,57 @@ theorem splitCommandLine_spec (str junk : List Nat) (h : ∀ c ∈ str, c ≠ 0)
   simpa using this
 
 
+/-- the loops end on EVERY buffer (terminated or not, NUL bytes anywhere): each iteration moves the
+    pointer forward, except the one that leaves a quoted segment at the terminator, which is followed
+    by the final iteration -/
+theorem splitLoop_ends (s : Buf) : ∀ (fuel : Nat) (q : Bool) (p : Nat) (arg : List Nat) (cmd : List (List Nat)),
+    s.length - p + 1 ≤ fuel → splitLoop s fuel q p arg cmd ≠ .fuel := by
+  intro fuel
+  induction fuel with
+  | zero => intro q p arg cmd h; omega
+  | succ f ih =>
+    intro q p arg cmd h
+    cases hc : s[p]? with
+    | none => cases q <;> simp [splitLoop, hc]
+    | some c =>
+      have hp : p < s.length := (List.getElem?_eq_some_iff.mp hc).1
+      have hf : s.length - (p + 1) + 1 ≤ f := by omega
+      have hf2 : s.length - (p + 2) + 1 ≤ f := by omega
+      cases q with
+      | false =>
+        simp only [splitLoop, hc]
+        by_cases h0 : c = 0
+        · simp [h0]
+        · simp only [h0, if_false]
+          by_cases h34 : c = 34
+          · simp only [h34, if_true]; exact ih _ _ _ _ hf
+          · simp only [h34, if_false]
+            by_cases h32 : c = 32
+            · simp only [h32, if_true]; exact ih _ _ _ _ hf
+            · simp only [h32, if_false]; exact ih _ _ _ _ hf
+      | true =>
+        simp only [splitLoop, hc]
+        by_cases h0 : c = 0
+        · simp only [h0, if_true]
+          match f, hf with
+          | g + 1, _ => simp [splitLoop, hc, h0]
+        · simp only [h0, if_false]
+          by_cases h34 : c = 34
+          · simp only [h34, if_true]; exact ih _ _ _ _ hf
+          · simp only [h34, if_false]
+            by_cases h92 : c = 92
+            · simp only [h92, if_true]
+              cases hd : s[p + 1]? with
+              | none => simp
+              | some d =>
+                by_cases hd34 : d = 34
+                · simp only [hd34, if_true]; exact ih _ _ _ _ hf2
+                · simp only [hd34, if_false]; exact ih _ _ _ _ hf
+            · simp only [h92, if_false]; exact ih _ _ _ _ hf
+
+theorem splitCommandLine_ends (s : Buf) : splitCommandLine s ≠ .fuel :=
+  splitLoop_ends s _ _ _ _ _ (by omega)
+
 /-! ### writing a word list as a command line and reading it back (specification level) -/
 
 theorem tok_escape (w : Word) : ∀ (cur : Word) (rest : List Nat), w.getLast? ≠ some 92 →
